@@ -670,6 +670,7 @@ func applyFilter(filter jparse.Node, items reflect.Value, env *environment) (ref
 		if jtypes.IsNumber(res) {
 			res = arrayify(res)
 		}
+		res = jtypes.Resolve(res)
 
 		switch {
 		case jtypes.IsArrayOf(res, jtypes.IsNumber):
